@@ -926,7 +926,11 @@ class Analysis:
         if k == "binop":
             return mk_bin(rv["op"], self.operand_term(rv["a"], cur), self.operand_term(rv["b"], cur))
         if k == "unop":
-            return mk_un(rv["op"], self.operand_term(rv["a"], cur))
+            a = self.operand_term(rv["a"], cur)
+            if rv["op"] == "PtrMetadata" and a[0] == "arg":
+                # length of a slice argument: same spelling as `arg.len()`
+                a = self.arg_for_call(a, cur, True, self.operand_ty(rv["a"]))
+            return mk_un(rv["op"], a)
         if k == "cast":
             src = self.operand_ty(rv["op"])
             return mk_cast(rv["kind"], self.operand_term(rv["op"], cur), rv["ty"], src)
@@ -1171,6 +1175,12 @@ def mk_call(key, args, targs, an, cur):
         return ("max", a, b)
     if key == "core::iter::traits::collect::IntoIterator::into_iter" and args:
         return args[0]
+    if key in ("core::cmp::PartialEq::eq", "core::cmp::PartialEq::ne") and len(args) == 2 and len(targs) == 2 \
+            and targs[0] == targs[1] and targs[0] in ("&usize", "&isize", "&u64", "&bool", "&u32", "&i32"):
+        # `a == b` on references to integers compares the integers: (&&T, &&T) -> *a == *b
+        ps = [value_behind(x, an) for x in args]
+        if all(p is not None for p in ps):
+            return mk_bin("Eq" if key.endswith("::eq") else "Ne", ("deref", ps[0]), ("deref", ps[1]))
     if key in ("core::option::Option::unwrap", "core::option::Option::expect",
                "core::option::Option::unwrap_unchecked") and args:
         return mk_field(("dc", args[0], "Some"), "0", 0)
